@@ -125,9 +125,18 @@ impl Drop for Model {
     }
 }
 
+thread_local! {
+    static LAST_PANIC_LOC: std::cell::RefCell<Option<String>> = const { std::cell::RefCell::new(None) };
+    /// depth of `catch` on this thread: a panic outside any `catch` is a defect of the harness itself
+    static IN_CATCH: std::cell::Cell<u32> = const { std::cell::Cell::new(0) };
+}
+
 /// Run a closure, turning a panic into `Err(message)`.
 pub fn catch<T>(f: impl FnOnce() -> T) -> Result<T, String> {
-    match std::panic::catch_unwind(std::panic::AssertUnwindSafe(f)) {
+    IN_CATCH.with(|c| c.set(c.get() + 1));
+    let r = std::panic::catch_unwind(std::panic::AssertUnwindSafe(f));
+    IN_CATCH.with(|c| c.set(c.get().saturating_sub(1)));
+    match r {
         Ok(v) => Ok(v),
         Err(e) => {
             let msg = if let Some(s) = e.downcast_ref::<&str>() {
@@ -147,13 +156,21 @@ pub fn catch<T>(f: impl FnOnce() -> T) -> Result<T, String> {
     }
 }
 
-thread_local! {
-    static LAST_PANIC_LOC: std::cell::RefCell<Option<String>> = const { std::cell::RefCell::new(None) };
-}
-
+/// Panics of the code under test (inside `catch`) are data and stay quiet; a panic anywhere else is a
+/// failure of the harness and is written to stderr so that `./check` can show it.
 pub fn quiet_panics() {
     std::panic::set_hook(Box::new(|info| {
         let loc = info.location().map(|l| format!("{}:{}", l.file(), l.line()));
+        let inside = IN_CATCH.try_with(|c| c.get() > 0).unwrap_or(false);
+        if !inside {
+            let msg = info
+                .payload()
+                .downcast_ref::<&str>()
+                .map(|s| s.to_string())
+                .or_else(|| info.payload().downcast_ref::<String>().cloned())
+                .unwrap_or_else(|| "panic".into());
+            eprintln!("mdharness: internal panic: {msg} [at {}]", loc.clone().unwrap_or_default());
+        }
         let _ = LAST_PANIC_LOC.try_with(|c| *c.borrow_mut() = loc);
     }));
 }
@@ -385,6 +402,8 @@ pub fn run_engine(engine: &'static dyn Engine, cfg: &Cfg) -> Report {
         /// per worker slot: (case index, start) of the case in flight
         inflight: Mutex<Vec<Option<(usize, std::time::Instant)>>>,
         finished: Mutex<Vec<bool>>,
+        /// a worker that panicked outside the code under test (model driver cannot be started, ...)
+        died: Mutex<Option<String>>,
     }
     let threads = cfg.threads.max(1).min(n.max(1));
     let max_workers = threads + 8; // up to 8 abandoned workers are replaced
@@ -394,11 +413,14 @@ pub fn run_engine(engine: &'static dyn Engine, cfg: &Cfg) -> Report {
         total: Mutex::new(Report::default()),
         inflight: Mutex::new(vec![None; max_workers]),
         finished: Mutex::new(vec![false; max_workers]),
+        died: Mutex::new(None),
     });
     let spawn_worker = |slot: usize| {
         let shared = shared.clone();
         let model_path = cfg.model_path.clone();
         std::thread::spawn(move || {
+          let shared2 = shared.clone();
+          let body = std::panic::catch_unwind(std::panic::AssertUnwindSafe(move || {
             let mut model = Model::spawn_opt(&model_path);
             let n = shared.cases.len();
             loop {
@@ -421,6 +443,12 @@ pub fn run_engine(engine: &'static dyn Engine, cfg: &Cfg) -> Report {
                 shared.total.lock().unwrap().merge(rep);
             }
             shared.finished.lock().unwrap()[slot] = true;
+          }));
+          if body.is_err() {
+              if let Ok(mut d) = shared2.died.lock() {
+                  d.get_or_insert_with(|| format!("worker {slot} panicked outside the code under test"));
+              }
+          }
         });
     };
     for slot in 0..threads {
@@ -456,6 +484,11 @@ pub fn run_engine(engine: &'static dyn Engine, cfg: &Cfg) -> Report {
                 spawn_worker(spawned);
                 spawned += 1;
             }
+        }
+        if let Some(msg) = shared.died.lock().ok().and_then(|d| d.clone()) {
+            // no report is written: `./check` runs the engine once more and reports a crash that reproduces
+            eprintln!("mdharness: {msg}; giving up without a report");
+            std::process::exit(5);
         }
         let finished = shared.finished.lock().unwrap();
         let live = (0..spawned).filter(|&w| !abandoned[w]).count();
